@@ -211,6 +211,19 @@ impl<'a> Hook for Adv<'a> {
                 let opclass = op.split('|').next().unwrap_or("").to_string();
                 self.out.cell(&format!("{}|{}|{}|{}", opclass, op.split('|').nth(1).unwrap_or("-"), self.state_before, if changed { "CHANGED" } else { rejected }));
                 self.out.count(&format!("invalid|{}", rejected), 1);
+                if changed && op.starts_with("answer-to-") {
+                    // A replayed *authentic* answer (to another request about the same chain) carries only genuine headers,
+                    // bound to its last header by a valid MMR proof. If the client's own checks accept it for the outstanding
+                    // request (e.g. it contains the requested last-N section plus older genuine headers), the resulting state
+                    // is the true state of that last header: that is a fully verified proof, not a violation.
+                    let (td, header) = w.c().stored_tip();
+                    let chain = &w.chains[w.peers[pi].chain];
+                    let truthful = chain.num_of(&header.calc_header_hash()).map(|n| chain.td(n) == td).unwrap_or(false);
+                    if truthful {
+                        self.out.count("authentic_replayed_answer_accepted_with_true_state", 1);
+                        return;
+                    }
+                }
                 if changed {
                     self.accepted_invalid += 1;
                     let mut nums: Vec<u64> = vec![];
